@@ -252,10 +252,11 @@ def loops(text):
     return res
 
 
-def top_statements(text):
-    """[(start,end)] of top-level statements in the fn body (split at ';' or '}' at depth 1)"""
+def top_statements(text, bo=None):
+    """[(start,end)] of the statements of a block (default: the fn body), split at ';' or a closing '}' at depth 1"""
     m = mask(text)
-    bo = body_open(text)
+    if bo is None:
+        bo = body_open(text)
     bc = match_close(m, bo)
     res = []
     k = bo + 1
@@ -454,12 +455,45 @@ def rule_x10(text, log, ty):
 
 
 # ---------------------------------------------------------------------------------- injection
+def enclosing_statement(text, idx):
+    """innermost statement (start, end) containing position idx"""
+    m = mask(text)
+    bo = body_open(text)
+    best = None
+    while True:
+        found = None
+        for s_, e_ in top_statements(text, bo):
+            if s_ <= idx < e_:
+                found = (s_, e_)
+                break
+        if not found:
+            return best
+        best = found
+        # innermost '{' block inside this statement that contains idx
+        nxt = None
+        k = found[0]
+        while k < idx:
+            if m[k] == '{':
+                c = match_close(m, k)
+                if c > idx:
+                    nxt = k
+                    break
+                k = c
+            k += 1
+        if nxt is None:
+            return best
+        bo = nxt
+
+
 def resolve_anchor(text, anchor):
     m = mask(text)
     a = anchor.split()
     if a[0] == 'fn-start':
         return body_open(text) + 1
     if a[0] == 'fn-end':
+        st = top_statements(text)
+        if st and not m[st[-1][0]:st[-1][1]].rstrip().endswith((';', '}')):
+            return st[-1][0]        # the body ends in a tail expression: ghost code goes before it
         return match_close(m, body_open(text))
     if a[0] == 'loop':
         ls = loops(text)
@@ -476,36 +510,10 @@ def resolve_anchor(text, anchor):
             if not mm:
                 raise LostAnchor("lost anchor: call %d of %s" % (k, callee))
             idx = mm.start()
-        # statement containing idx
-        p = idx
-        d = 0
-        while p > 0:
-            c = m[p - 1]
-            if c in ')]}':
-                d += 1
-            elif c in '([{':
-                if d == 0:
-                    break
-                d -= 1
-            elif c == ';' and d == 0:
-                break
-            p -= 1
-        if where == 'before':
-            return p
-        q = idx
-        d = 0
-        while q < len(m):
-            c = m[q]
-            if c in '([{':
-                d += 1
-            elif c in ')]}':
-                if d == 0:
-                    break
-                d -= 1
-            elif c == ';' and d == 0:
-                return q + 1
-            q += 1
-        return q
+        es = enclosing_statement(text, idx)
+        if es is None:
+            raise LostAnchor("lost anchor: statement of call %d of %s" % (k, callee))
+        return es[0] if where == 'before' else es[1]
     if a[0] == 'stmt':
         st = top_statements(text)
         k = int(a[1])
@@ -531,6 +539,12 @@ def resolve_anchor(text, anchor):
                 if cnt == k:
                     return s_ if where == 'before' else e_
         raise LostAnchor("lost anchor: %s (found %d matching statements)" % (anchor, cnt))
+    if a[0] == 'return':
+        k = int(a[1])
+        pos = [mm.start() for mm in re.finditer(r'(?<![A-Za-z0-9_])return(?![A-Za-z0-9_])', m)]
+        if k > len(pos):
+            raise LostAnchor("lost anchor: return %d (have %d)" % (k, len(pos)))
+        return pos[k - 1]
     if a[0] == 'macro':
         # k-th lone ';' line (rustc leaves one behind each expanded statement macro)
         k = int(a[1])
@@ -580,7 +594,7 @@ def inject(text, sections, twin=False, ret='r'):
     if twin and bo >= 0:
         # vacuity guard: under the function's own requires, `false` must NOT be provable at entry.  (An added
         # `ensures false` would instead poison every caller of the function.)
-        edits.append((bo + 1, -1, "\nproof { assert(false); }\n"))
+        edits.append((bo + 1, 999, "\nproof { assert(false); }\n"))
     if sig.strip():
         if bo >= 0:
             edits.append((bo, 0, "\n" + sig + "\n"))
